@@ -48,7 +48,7 @@ class C08(Check):
     def strata(self, tier):
         # S-fortran: every run is an f2py build (~5 s): few runs, all with heun/euler and a time-varying input
         return [('S-fixed', 5), ('S-adaptive', 3), ('S-cols', 2), ('S-depth2', 1), ('S-probe', 2), ('S-torch', 1),
-                ('S-jax', 1), ('S-fortran', 0.25)]
+                ('S-jax', 1), ('S-fortran', 0.25), ('S-big', 1)]
 
     def prepare_parent(self):
         try:
@@ -65,7 +65,9 @@ class C08(Check):
         libs = ('lin', 'integ', 'leak', 'osc', 'linl')
         if stratum == 'S-cols':
             libs = (rng.choice(libs),)
-        spec = models.gen_net(rng, n_nodes=rng.randint(2 if stratum == 'S-cols' else 1, 5), libs=libs,
+        if stratum == 'S-big':
+            libs = rng.choice([libs, ('lin',), ('leak', 'lin')])
+        spec = models.gen_net(rng, n_nodes=rng.randint(2 if stratum == 'S-cols' else 1, 5) if stratum != 'S-big' else rng.randint(9, 15), libs=libs,
                               hier=depth >= 1, max_edges=4,
                               # multi-operator nodes: the operator that receives the input is read by a second operator
                               readouts=(0.4, 0.0, 0.5) if rng.random() < 0.25 else None)
